@@ -69,6 +69,10 @@ fn main() {
         (0, 0, 0, 0),
         (u32::MAX, 10_000, 0, 0),
         (7, 3, 3, 3),
+        // maximal slack of the fee rule: the largest deposit claiming nothing / almost nothing
+        (u32::MAX, 0, 0, 0),
+        (u32::MAX, 0, 1, 0),
+        (3_518_437_209, 0, 0, 0),
     ];
     let tcs: Vec<u64> = vec![0, u32::MAX as u64, 1 << 32, u64::MAX];
     let mut cases: Vec<HonestParams> = Vec::new();
